@@ -15,7 +15,10 @@ def run(out, prelude):
         return
     ok, _, binp = vlib.build_harness()
     if ok:
+        pn, _ = pidcheck.run_providers(out, binp, vlib.tier() == "thorough")
         n, nbad = pidcheck.run(out, binp, vlib.tier() == "thorough")
         out.cov["rule"] = out.cov.get("rule", "") + ("; plus %d make / parse cases of the OAuth2 PID codec on the real library (every pair of a "
                                                      "hostile fragment corpus - separators inside provider and uid, empty parts, the word "
-                                                     "'oauth2' - and random compositions) compared with make_pid / parse_pid" % n)
+                                                     "'oauth2' - and random compositions) compared with make_pid / parse_pid; plus %d userinfo documents (string, numeric - also beyond "
+                                                     "2^53 -, null, absent, boolean, structured ids) through the library's Google and Facebook adapters "
+                                                     "compared with provider_uid" % (n, pn))
